@@ -5,6 +5,7 @@ let () =
   let mode = Sys.argv.(1) and file = Sys.argv.(2) in
   let eval = match mode with
     | "c19" -> Run_c19.eval_line
+    | "queue" -> Run_queue.eval_line
     | _ -> failwith ("unknown mode " ^ mode) in
   let ic = open_in file in
   let n = ref 0 and bad = ref 0 in
